@@ -122,11 +122,14 @@ def build_stream(spec):
         progs[i] = out
     evs = SC.merge(progs, spec['schedule'])
     tm = []
+    # the 20-byte name field may hold stale bytes behind the terminator (strlcpy into a reused buffer): they are not
+    # part of the name
+    tail = [b'', b'', b'iaserverd', b'\x01x', b'ask'][spec.get('retarget', 0) % 5]
     for i in range(len(progs)):
         if spec['map_mask'] >> i & 1:
-            tm.append((SC.PROGRAM_TIDS[i], 100 * (i + 1), b'P%d_main' % i))
+            tm.append((SC.PROGRAM_TIDS[i], 100 * (i + 1), b'P%d_main' % i, tail))
     for tid_i, pid, nm in spec['extra_map']:
-        tm.append((SC.PROGRAM_TIDS[tid_i % 4], pid, nm))
+        tm.append((SC.PROGRAM_TIDS[tid_i % 4], pid, nm, tail[:19 - len(nm)]))
     recs = [kmodel.ev_record((1001 + 7 * k, tid, (EV.eid(code) & ~3) | q, data)) for k, (tid, code, q, data) in enumerate(evs)]
     return kmodel.v2_file(tm, 0, recs), evs, tm
 
@@ -148,7 +151,7 @@ def arg(e, i):
 def model_states(evs, tm):
     """attribution tables before event 0 and after each event: list of (tp, pn) snapshots"""
     tp, pn = {}, {}
-    for tid, pid, nm in tm:
+    for tid, pid, nm, *_ in tm:
         tp[tid] = pid
         pn[pid] = nm.decode()
     snaps = [(dict(tp), dict(pn))]
@@ -187,7 +190,7 @@ def prop_v2(ctx, case):
     if case['all64']:
         cfgs = list(itertools.product((0, 1), repeat=6))
     snaps = model_states(evs, tm)
-    declared_names = {n for s in snaps for n in s[1].values()} | {nm.decode() for _, _, nm in tm}
+    declared_names = {n for s in snaps for n in s[1].values()} | {t[2].decode() for t in tm}
     declared_pids = {p for s in snaps for p in s[0].values()}
     cls = set()
     # ---- kevents
@@ -230,6 +233,19 @@ def prop_v2(ctx, case):
     # colour
     cfg_on = (1, 1, 1, 1, 1, 1)
     plain = guard(listing, 'traces', blob, cfg_on, False)
+    # ---- class / subclass filters choose WHICH lines are printed; a printed line still names the declared process
+    # (the records that declare threads belong to class 7, whatever the caller asked to see)
+    heads = {}
+    for k in range(len(tbody)):
+        heads[tsegs[0][k] + tsegs[3][k]] = tsegs[0][k] + tsegs[3][k] + tsegs[4][k]
+    for fc, fs in ([[], [0x0701]], [[], [0x0700]], [[4], []], [[1], [0x0701]], [[0x25, 0x1f], []], [[], [0x040c, 0x0701]])[case['spec'].get('retarget', 0) % 2::2]:
+        pf = parser_with(cfg_on)
+        pf.filter_class, pf.filter_subclass = list(fc), list(fs)
+        for line in guard(lambda: [str(x) for x in pf.formatted_traces(BudgetReader(blob))]):
+            key = next((h for h in heads if line.startswith(h)), None)
+            if key is None or not line.startswith(heads[key]):
+                raise Violation('process-column-under-filter', f'with class filter {fc} / subclass filter {fs} the line {line[:120]!r} does not begin with the '
+                                                               f'timestamp, thread and process columns of the unfiltered listing ({heads.get(key)!r})')
     colour = guard(listing, 'traces', blob, cfg_on, True)
     if [SGR.sub('', x) for x in colour] != plain:
         k = next(i for i in range(len(plain)) if SGR.sub('', colour[i]) != plain[i]) if len(colour) == len(plain) else -1
